@@ -371,6 +371,27 @@ impl ClockCache {
         entries
     }
 
+    /// Crate-private generation-tagged entry points, exposed for exhaustive exploration.
+    pub fn verif_insert_for_record(&self, key: Vec<u8>, value: Bytes, record: &Arc<Record>) {
+        self.insert_for_record(key, value, record);
+    }
+
+    pub fn verif_get_for_record(&self, key: &[u8], record: &Arc<Record>) -> Option<Bytes> {
+        self.get_for_record(key, record)
+    }
+
+    pub fn verif_remove_for_record(&self, key: &[u8], record: &Arc<Record>) {
+        self.remove_for_record(key, record);
+    }
+
+    /// `record_entry(..).value()` followed by `.remove()`, as `update_ttl` uses it.
+    pub fn verif_take_record_entry(&self, key: &[u8], record: &Arc<Record>) -> Option<Bytes> {
+        let entry = self.record_entry(key, record);
+        let value = entry.value();
+        entry.remove();
+        value
+    }
+
     pub fn verif_hand(&self) -> usize {
         self.clock_hand.load(Ordering::Relaxed)
     }
